@@ -169,12 +169,24 @@ func (g *Gen) execInstr(st *State, in ssa.Instruction) {
 	case *ssa.Call:
 		g.regs[x] = g.call(st, x, x.Common(), x.Type())
 	case *ssa.Defer:
-		st.defers = append(st.defers, x)
+		st.defers = append(st.defers, deferEntry{x, "true"})
 	case *ssa.RunDefers:
 		ds := st.defers
 		st.defers = nil
 		for i := len(ds) - 1; i >= 0; i-- {
-			g.call(st, ds[i], ds[i].Common(), nil)
+			if ds[i].guard == "true" {
+				g.call(st, ds[i].d, ds[i].d.Common(), nil)
+				continue
+			}
+			// conditionally registered defer: run it on the paths that registered it
+			s1 := st.clone()
+			s1.pc = g.defBool("pc", and(st.pc, ds[i].guard))
+			g.call(s1, ds[i].d, ds[i].d.Common(), nil)
+			s2 := st.clone()
+			s2.pc = g.defBool("pc", and(st.pc, not(ds[i].guard)))
+			merged := g.join(nil, []edge{{nil, s1, s1.pc}, {nil, s2, s2.pc}})
+			*st = *merged
+			st.defers = nil
 		}
 	case *ssa.Go:
 		g.note("go", "goroutine start not modelled: "+x.Common().String())
